@@ -43,6 +43,7 @@ pub const TREE_SEEDS: &[Seed] = &[
     s("castle-attacked", "r3k2r/8/8/8/8/5q2/8/R3K2R w KQkq - 0 1", 2, 3, "queen attacks f1/d1/e2: castling through check forbidden"),
     s("castle-b1-attacked", "4k3/8/8/8/8/8/1r6/R3K2R w KQ - 0 1", 2, 4, "b1 attacked: queenside castling still legal"),
     s("castle-promo-rook", "r3k2r/1P4P1/8/8/8/8/1p4p1/R3K2R w KQkq - 0 1", 2, 3, "promotion capturing a home rook that still carries rights"),
+    s("promo-vs-rooks", "r3k2r/1P6/8/8/8/8/8/4K3 w kq - 0 1", 6, 8, "promotion capturing a home rook; later the other rook can reach the vacated corner (stale rights would allow an illegal castle 8 plies on)"),
     s("castle-check", "5k2/8/8/8/8/8/8/4K2R w K - 0 1", 2, 4, "O-O gives check"),
     s("castle-mate", "2rkr3/2p1p3/8/8/8/8/8/R3K3 w Q - 0 1", 2, 4, "O-O-O gives mate"),
     s("kqk-corner", "7k/8/5K2/8/8/8/8/6Q1 w - - 0 1", 3, 5, "mates and stalemates within 1-3 plies"),
@@ -151,6 +152,13 @@ pub fn castle_matrix(full: bool) -> Vec<Pos> {
                             }
                         } else if !p.is_consistent() {
                             continue;
+                        }
+                        // the same placement with the attacker's side to move (so that captures of
+                        // home rooks / king approaches by every kind of piece are depth-0 transitions)
+                        let mut flipped = p.clone();
+                        flipped.stm = them;
+                        if flipped.is_consistent() {
+                            out.push(flipped);
                         }
                         out.push(p);
                     }
@@ -292,6 +300,41 @@ pub fn three_men() -> Vec<Pos> {
                         }
                     }
                 }
+            }
+        }
+    }
+    out
+}
+
+/// Playout seeds: positions met along deterministic long games (no randomness: the k-th legal
+/// move is chosen by a fixed arithmetic rule that favours pawn moves and rotates through the
+/// promotion pieces), sampled every `every` plies.  They widen the material configurations of
+/// the tree seeds (several promoted pieces, under-promotions, lost castling rights, bare-ish
+/// endgames deep into a game).  Each is a seed of a depth-1/2 tree like any other.
+pub fn playout_seeds(playouts: u32, max_plies: u32, every: u32) -> Vec<(String, Pos)> {
+    let mut out = Vec::new();
+    let starts = ["rnbqkbnr/pppppppp/8/8/8/8/PPPPPPPP/RNBQKBNR w KQkq - 0 1", "r3k2r/p1ppqpb1/bn2pnp1/3PN3/1p2P3/2N2Q1p/PPPBBPPP/R3K2R w KQkq - 0 1", "n1n5/PPPk4/8/8/8/8/4Kppp/5N1N b - - 0 1", "4k3/pppppppp/8/8/8/8/PPPPPPPP/4K3 w - - 0 1"];
+    let mut seen = std::collections::HashSet::new();
+    for k in 0..playouts {
+        let mut p = Pos::from_fen(starts[(k as usize) % starts.len()]).unwrap();
+        let mut x: u64 = 0x9E3779B97F4A7C15u64.wrapping_mul(k as u64 + 1);
+        for ply in 0..max_plies {
+            let legal = p.legal_moves();
+            if legal.is_empty() {
+                break;
+            }
+            x = x.wrapping_mul(6364136223846793005).wrapping_add(1442695040888963407);
+            // prefer pawn moves two times out of three so that pawns get through; never capture a
+            // king-adjacent defender preferentially etc. — the rule is arbitrary but fixed
+            let pawn: Vec<&Move> = legal.iter().filter(|m| m.moved == Kind::Pawn).collect();
+            let pick = if !pawn.is_empty() && (x >> 33) % 3 != 0 { pawn[((x >> 40) as usize) % pawn.len()] } else { &legal[((x >> 40) as usize) % legal.len()] };
+            p = p.make(pick);
+            p.halfmove = p.halfmove.min(60); // keep clear of the move-count draw: the clock is not what these seeds are for
+            if (ply + 1) % every == 0 && seen.insert(crate::bind::canon(&p)) {
+                let mut q = p.clone();
+                q.halfmove = 0;
+                q.ply = 0;
+                out.push((format!("playout{}@{}", k, ply + 1), q));
             }
         }
     }
